@@ -114,6 +114,14 @@ impl Types {
         let mut live_types = wit_parser::LiveTypes::default();
         live_types.add_world(resolve, world_id);
         for (i, ty) in live_types.iter().enumerate() {
+            // A typedef of (or `use` of) another type is that type: it joins
+            // the class of its own target rather than that of whichever
+            // look-alike happens to come first, which matters when
+            // `may_alias_another_type` keeps look-alikes apart.
+            if let TypeDefKind::Type(Type::Id(target)) = resolve.types[ty].kind {
+                self.equal_types.union(ty, target);
+                continue;
+            }
             if !may_alias_another_type(ty) {
                 continue;
             }
